@@ -118,8 +118,17 @@ def showEmit (s : Sys) (e : Emit) : String :=
   | _ =>
     showFile e.page ++ ">" ++ (match href s e with | none => "AssertionError" | some h => showHref h) ++ m
 
+/-- `anchorsOf s`, computed once per written file instead of once per link -/
+def anchorCache (s : Sys) (w : List File) : File → List Name :=
+  let tbl := w.eraseDups.map fun f => (f, anchorsOf s f)
+  fun f => match tbl.find? (fun x => x.1 == f) with
+    | some x => x.2
+    | none => anchorsOf s f
+
 def answer (s : Sys) : String :=
   let es := emits s
+  let w := written s
+  let anch := anchorCache s w
   let sec (name : String) (items : List String) : String := name ++ " " ++ canon items
   let rows := allRows.map fun r => sec (rowName r) ((es.filter fun e => e.row = r && e.linked).map (showEmit s))
   " | ".intercalate (
@@ -134,7 +143,7 @@ def answer (s : Sys) : String :=
       sec "roottexts" ((es.filter fun e => !e.linked).map fun e =>
           showFile e.page ++ ">" ++ Proto.encodeStr (s.ob e.target).name ++ ">" ++
             (match e.marked with | none => "-" | some b => showBool b)),
-      sec "dead" ((es.filter fun e => !resolves s e).map fun e => rowName e.row ++ ":" ++ showEmit s e),
+      sec "dead" ((es.filter fun e => !resolvesIn s w anch e).map fun e => rowName e.row ++ ":" ++ showEmit s e),
       sec "hiddenlinks" ((es.filter fun e => !visible s e.target).map fun e => rowName e.row ++ ":" ++ showEmit s e),
       sec "unmarked" ((es.filter fun e => e.row.listing && (s.ob e.target).privacy == .priv && e.marked != some true).map
                         fun e => rowName e.row ++ ":" ++ showEmit s e) ]
